@@ -5,7 +5,7 @@
    table), the outcome, the complete state after and what every listener received.  Here the
    model is run by vm_compute from the recorded pre-state, with code semantics given by the
    oracle table, and compared component by component; the result is a bit mask. *)
-From Sismic Require Import Base Chart Interp World.
+From Sismic Require Import Base Chart Interp World Spec.
 Open Scope list_scope.
 
 (* ---- oracle evaluator: the context is the recorded value of evaluator._context ---- *)
@@ -107,9 +107,9 @@ Definition obs_kind (o : obs cval) : N :=
 Fixpoint first_diff (model impl : list (obs cval)) : N :=
   match model, impl with
   | [], [] => 0%N
-  | m :: _, [] => obs_kind m
+  | m :: _, [] => (16 * obs_kind m)%N
   | [], i :: _ => obs_kind i
-  | m :: ms, i :: is_ => if obs_eqb m i then first_diff ms is_ else obs_kind i
+  | m :: ms, i :: is_ => if obs_eqb m i then first_diff ms is_ else (obs_kind i + 16 * obs_kind m)%N
   end.
 
 (* the last ObSelected of the model's trace (newest first) *)
@@ -152,6 +152,17 @@ Definition B_CTX := 512%N.       (* context, __old__ store, _sent_events        
 Definition B_LOGS := 1024%N.     (* meta-events received by attached listeners      C10 *)
 Definition B_BOUND := 2048%N.    (* deliveries to bound callables / interpreters    C15 *)
 Definition B_PROPS := 4096%N.    (* property interpreters: state and calls          C10 *)
+(* checkers evaluated on the implementation's own output (no model run involved) *)
+Definition PB_LEGAL := 8192%N.    (* C02: configuration after a normal return is empty or legal+stable *)
+Definition PB_QINV := 16384%N.    (* C05: queues sorted by due time, internal/external separated *)
+Definition PB_META := 32768%N.    (* C10: every recorder received exactly spec_meta(returned macro step) *)
+Definition PB_DELIV := 65536%N.   (* C15: every bound callable received exactly the sent internal events *)
+Definition PB_REPLAY := 131072%N. (* C03: replaying exited/entered lists gives the new configuration *)
+Definition PB_TIMES := 262144%N.  (* C13: step time frozen; entry/idle times as the macro step says *)
+Definition B_OLD := 524288%N.     (* __old__ store                                    C08 C18 *)
+Definition PB_HIST := 1048576%N.  (* C06: history restores/records as the replay of the macro step says *)
+Definition PB_SLOTS := 2097152%N. (* C08/C03: evaluator calls are exactly the documented points of the returned macro step *)
+Definition PB_FAIL := 4194304%N.  (* C08: a false/erring evaluation is the last one and is what the error carries *)
 
 Definition bit (b : bool) (v : N) : N := if b then 0%N else v.
 
@@ -161,8 +172,8 @@ Definition istate_bits (a b : istate cval) : N :=
    + bit (queue_eqb (i_iq a) (i_iq b) && queue_eqb (i_eq a) (i_eq b)) B_QUEUES
    + bit (list_eqb (pair_eqb str_eqb strs_eqb) (canon_memory (i_memory a)) (canon_memory (i_memory b))) B_MEMORY
    + bit (Z.eqb (i_time a) (i_time b) && zdict_eqb (i_entry a) (i_entry b) && zdict_eqb (i_idle a) (i_idle b)) B_TIMES
-   + bit (cval_eqb (i_ctx a) (i_ctx b) && old_eqb (i_old a) (i_old b)
-          && list_eqb event_eqb (i_sent a) (i_sent b)) B_CTX)%N.
+   + bit (cval_eqb (i_ctx a) (i_ctx b) && list_eqb event_eqb (i_sent a) (i_sent b)) B_CTX
+   + bit (old_eqb (i_old a) (i_old b)) B_OLD)%N.
 
 Definition istate_eqb (a b : istate cval) : bool := N.eqb (istate_bits a b) 0.
 
@@ -209,19 +220,106 @@ Definition selected_bits (tr : list (obs cval)) (impl : outcome) : N :=
   | _, _ => 0%N
   end.
 
+(* ---- Pb on implementation outputs ---- *)
+Definition call_time_ok (now : Z) (e : call cval * cval * ores) : bool :=
+  negb (Nat.eqb (entry_interp e) 0) || Z.eqb (cl_time (fst (fst e))) now.
+
+Definition is_rec (l : listener) : bool := match l with LRec _ => true | _ => false end.
+Definition is_callable (l : listener) : bool := match l with LCallable _ => true | _ => false end.
+Definition lid (l : listener) : nat :=
+  match l with LRec i | LCallable i | LInterp i | LProp i => i end.
+
+Definition entry_slot (e : call cval * cval * ores) : slot :=
+  let c := fst (fst e) in (cl_kind c, cl_owner c, cl_idx c).
+Definition main_nonguard (e : call cval * cval * ores) : bool :=
+  Nat.eqb (entry_interp e) 0 && negb (ckind_eqb (cl_kind (fst (fst e))) CGuard).
+Definition entry_failed (e : call cval * cval * ores) : bool :=
+  match snd e with
+  | REval (Some true) => false
+  | REval (Some false) => negb (ckind_eqb (cl_kind (fst (fst e))) CGuard)   (* a false guard is not a failure *)
+  | REval None => true
+  | RExec None => true
+  | RExec (Some _) => false
+  end.
+
+(* first failing evaluation of the monitored interpreter, with what follows it *)
+Fixpoint after_first_failure (l : list (call cval * cval * ores))
+  : option ((call cval * cval * ores) * list (call cval * cval * ores)) :=
+  match l with
+  | [] => None
+  | e :: r => if entry_failed e then Some (e, r) else after_first_failure r
+  end.
+
+Definition fail_ok (c : icase) : bool :=
+  let calls := filter (fun e => Nat.eqb (entry_interp e) 0) (ic_table c) in
+  match after_first_failure calls, ic_out c with
+  | None, OutErr (EContract _ _ _) => false
+  | None, OutErr (ECode _ _ _) => false
+  | None, _ => true
+  | Some (e, rest), OutErr (EContract k o i) =>
+      (match rest with [] => true | _ => false end)
+      && slot_eqb (entry_slot e) (k, o, i)
+      && (match snd e with REval (Some false) => true | _ => false end)
+  | Some (e, rest), OutErr (ECode k o i) =>
+      (match rest with [] => true | _ => false end) && slot_eqb (entry_slot e) (k, o, i)
+      && (match snd e with REval None | RExec None => true | _ => false end)
+  | Some _, _ => false
+  end.
+
+Definition pb_bits (c : icase) : N :=
+  let sc := ic_chart c in
+  let pre := ic_pre c in
+  let post := ic_post c in
+  let wpost := ic_world_post c in
+  let qinv := bit (negb (Q_inv_b pre) || Q_inv_b post) PB_QINV in
+  match ic_op c, ic_out c with
+  | OpExecOnce now, OutMacro macro =>
+      let steps := match macro with Some (_, st) => st | None => [] end in
+      let recs := filter is_rec (w_listeners (ic_world c)) in
+      let cals := filter is_callable (w_listeners (ic_world c)) in
+      (qinv
+       + bit (Pb_C02 sc (is_final pre) (i_config post)) PB_LEGAL
+       + bit (forallb (fun l => match nlookup (lid l) (w_logs wpost) with
+                                | Some log => list_eqb meta_eqb log (spec_meta sc now macro)
+                                | None => false
+                                end) recs) PB_META
+       + bit (forallb (fun l => match nlookup (lid l) (w_calls wpost) with
+                                | Some log => list_eqb event_eqb log (spec_deliveries steps)
+                                | None => false
+                                end) cals) PB_DELIV
+       + bit (strs_eqb (sort_names (replay_config (i_config pre) steps)) (sort_names (i_config post))) PB_REPLAY
+       + bit (list_eqb slot_eqb (map entry_slot (filter main_nonguard (ic_table c)))
+                       (expected_slots sc (negb (i_ignore_contract pre)) steps (i_config post))) PB_SLOTS
+       + bit (fail_ok c) PB_FAIL
+       + bit (match hist_replay sc steps (i_config pre) (i_memory pre) with
+              | Some (_, m) => list_eqb (pair_eqb str_eqb strs_eqb) (canon_memory m) (canon_memory (i_memory post))
+              | None => false
+              end) PB_HIST
+       + bit (Z.eqb (i_time post) now
+              && (match macro with Some (t, _) => Z.eqb t now | None => true end)
+              && forallb (call_time_ok now) (ic_table c)
+              && zdict_eqb (i_entry post) (spec_entry (i_entry pre) now steps)
+              && zdict_eqb (i_idle post) (spec_idle sc (i_idle pre) now steps)) PB_TIMES)%N
+  | OpExecOnce now, OutErr _ =>
+      (qinv + bit (Z.eqb (i_time post) now && forallb (call_time_ok now) (ic_table c)) PB_TIMES
+       + bit (fail_ok c) PB_FAIL)%N
+  | _, _ => (qinv + bit (Z.eqb (i_time post) (i_time pre)) PB_TIMES)%N
+  end.
+
 Definition check_icase (c : icase) : N :=
   let '(s, out) := run_case c in
   let mask :=
-  N.lor (selected_bits (m_tr s) (ic_out c))
+  N.lor (pb_bits c)
+  (N.lor (selected_bits (m_tr s) (ic_out c))
   (N.lor (outcome_bits out (ic_out c))
   (N.lor (istate_bits (m_i s) (ic_post c))
   (N.lor (world_bits (m_x s) (ic_world_post c))
   (N.lor (bit (list_eqb obs_eqb (filter is_call (rev (m_tr s))) (ic_trace c)) B_TRACE)
          (bit (list_eqb obs_eqb (filter is_call (rev (w_tr (m_x s)))) (ic_ptrace c))
-              B_PROPS))))) in
+              B_PROPS)))))) in
   if N.eqb mask 0 then 0%N else
-  (mask + 65536 * first_diff (filter is_call (rev (m_tr s))) (ic_trace c)
-        + 1048576 * outcome_code out)%N.
+  (mask + 16777216 * first_diff (filter is_call (rev (m_tr s))) (ic_trace c)
+        + 4294967296 * outcome_code out)%N.
 
 Fixpoint check_from (i : N) (cs : list icase) : list (N * N) :=
   match cs with
